@@ -55,8 +55,8 @@ def shards(tier, seed):
     else:
         for c in d3:
             sh += mk('d=3: unary operators on subsets <=3 blades (14 configurations)', c, 'un', ('S', 3), 12)
-            if c in d3[::2]:
-                sh += mk('d=3: binary operators on subsets <=2 blades, one-sided + diagonal (7 configurations)', c, 'bin', ('S', 2), 37)
+            if c in d3[::4]:
+                sh += mk('d=3: binary operators on subsets <=2 blades, one-sided + diagonal (4 configurations)', c, 'bin', ('S', 2), 37)
             sh += mk('float-valued operators (sqrt, norm, normalized, exp, **0.5) on Study numbers / simple elements', c, 'float', ('S', 2), 2)
         for c in [spaces.cfg_pqr(4, 0, 0), spaces.cfg_pqr(3, 0, 1)]:
             sh += mk('d=4: unary operators on small grade blocks with dense layouts', c, 'un', ('Gsmall',), 8)
